@@ -707,6 +707,7 @@ class MQTTBaseProtocol(Protocol):
         '''
         def doPingError():
             log.warn("--- {packet:7} Timeout", packet="PINGREQ")
+            self._pingReq.alarm = None    # it has just fired: nothing left to cancel
             self.transport.abortConnection()
         log.debug("==> {packet:7}", packet="PINGREQ")
         self.transport.write(self._pingReq.pdu)
